@@ -301,6 +301,7 @@ def run_history(ops, full=False):
                 o["out_len"] = len(res)
                 o["n_open"] = res.count("<span")
                 o["n_close"] = res.count("</span>")
+                o["n_blank"] = res.count("&nbsp;")
                 if full:
                     o["out"] = res
             # input objects rebound / mutated in place (identity level)
